@@ -165,7 +165,7 @@ def run_coq_cases(mod, fun, imports, coq_terms, shard=300, jobs=None, timeout=18
                 if block: p.wait()
                 if p.poll() is None: continue
                 running.remove(it)
-                out = p.stdout.read()
+                out = open(path + ".out").read()
                 if p.returncode != 0:
                     errors.append(out[-3000:]); continue
                 m = re.search(r"=\s*(\[.*?\])\s*:\s*list", out, flags=re.S)
@@ -176,8 +176,9 @@ def run_coq_cases(mod, fun, imports, coq_terms, shard=300, jobs=None, timeout=18
         while pending or running:
             while pending and len(running) < jobs:
                 start, path = pending.pop(0)
+                # output goes to a file, not a pipe: a shard printing more than the pipe buffer would block for ever
                 p = subprocess.Popen(["timeout", str(timeout), "coqc", "-R", COQ, "PAV", "-w", "none", path],
-                                     stdout=subprocess.PIPE, stderr=subprocess.STDOUT, text=True, cwd=tmp)
+                                     stdout=open(path + ".out", "w"), stderr=subprocess.STDOUT, cwd=tmp)
                 running.append((start, path, p))
             reap(block=False)
             if running: time.sleep(0.05)
